@@ -24,6 +24,7 @@ import (
 	"testing/synctest"
 	"time"
 
+	badgerdb "github.com/dgraph-io/badger/v3"
 	"github.com/twinj/uuid"
 
 	"github.com/janelia-flyem/dvid/datastore"
@@ -108,6 +109,8 @@ func TestChild(t *testing.T) {
 		dvid.SetLogMode(dvid.WarningMode)
 	}
 	registerEngines()
+	// every Badger transaction start is a yield point (see overlay/gen.py)
+	badgerdb.VerifYield = func(kind string) { theSim.yield("badger." + kind) }
 
 	// Deterministic UUIDs: the generator's random source is a seam of the
 	// twinj/uuid package.  Seeded per lifetime so UUIDs never repeat.
